@@ -31,7 +31,8 @@ def cases(draw, nums, pmax=5, kmax=4):
         st.one_of(st.none(), st.integers(-n - 1, n + 1)),
         st.sampled_from([None, None, 1, 2, -1, -2])), min_size=1, max_size=2))
     sj = draw(st.integers(0, p))
-    return {"U": U, "p": p, "w": w, "num": num, "pairs": pairs, "slices": slices, "sj": sj}
+    return {"U": U, "p": p, "w": w, "num": num, "pairs": pairs, "slices": slices, "sj": sj,
+            "reject_first": draw(st.sampled_from([None, None, None, "negative", "zero", "length"]))}
 
 
 def as_frac_seq(x):
@@ -64,6 +65,22 @@ def check(case, out):
     f = lib.Function(Ulib)
     if wlib is not None:
         f.weights = wlib
+    if case.get("reject_first"):
+        # history: a weights assignment that must be rejected (non-positive entry / wrong length) comes first;
+        # the function must keep evaluating with the weights that were in force before
+        out.cls("rejected-weights-first")
+        badw = [lib.conv_val(F(1), num)] * n
+        if case["reject_first"] == "negative" and n >= 1:
+            badw[n // 2] = lib.conv_val(F(-3), num)
+        elif case["reject_first"] == "zero":
+            badw[0] = lib.conv_val(F(0), num)
+        else:
+            badw = badw + [lib.conv_val(F(2), num)]
+        try:
+            f.weights = badw
+            out.fail("invalid-weights-accepted", klass, f"weights {badw} accepted for npts={n}")
+        except ValueError:
+            pass
     params = gen.params_of(case["U"], 2)
     lparams = [F(u) if exact else lib.conv_knot(u, num) for u in params]
     fparams = [oracle.frac(u) for u in lparams]
